@@ -79,6 +79,7 @@ class Harness:
         self.peer_next = 1
         self.delayed = []
         self.waiters = {}
+        self.rejecting = []
         self.seen_emitted = 0
         self.client_sends = {}           # client pid -> dict(reliable, state, tx, last, tries_left, future)
         self.last_new_pid = -1
@@ -149,7 +150,12 @@ class Harness:
         """two one-shot waiters (message_handler.wait_for) for the same message name: each is a subscriber like any other and
         un-subscribes itself while the event is being dispatched"""
         handler = self.session.message_handler if tag == "session" else self.region.message_handler
-        name = NAMES[name_idx]
+        name = NAMES[name_idx % 2]
+        if name_idx >= 2:
+            # a filtered subscriber whose predicate rejects everything, registered before the waiters that must still be served
+            name = NAMES[name_idx - 2]
+            self.rejecting.append(handler.wait_for((name,), predicate=lambda m: False, take=False))
+            self.flags.add("rejecting_subscriber_first")
         for _ in range(2):
             self.waiters.setdefault((tag, name), []).append(handler.wait_for((name,), take=False))
         self.flags.add("waiters")
@@ -267,8 +273,39 @@ class Harness:
             out.extend(self._check_futures())
         return out
 
-    def ev_client_send(self, reliable):
+    def ev_packetack_reliable(self, pick):
+        """a PacketAck that is itself flagged reliable (legal): it is a reliable packet like any other - acknowledged, and
+        dispatched once to the subscribers that listen to everything"""
+        outstanding = [i for i, r in self.client_sends.items() if r["reliable"] and r["state"] == "pending"]
+        ids = {"all": outstanding[:4], "oldest": outstanding[:1]}.get(pick) or [987654]
+        pid = self.peer_next
+        self.peer_next += 1
+        before = Counter(self.deliveries)
+        exc = self._feed(_mk_peer_msg("PacketAck", pid, True, body=ids))
+        out = []
+        if exc is not None:
+            out.append(("recv:raises:%s" % type(exc).__name__, "reliable PacketAck raised %r" % (exc,)))
+        em = self._new_emissions()
+        self._check_ids(em, out)
+        n = sum(e["body"].count(pid) for e in em if e["name"] == "PacketAck" and e["body"] is not None)
+        if n != 1:
+            out.append(("ack:count", "reliable PacketAck %d was acknowledged %d times" % (pid, n)))
+        for tag in ("session", "region"):
+            delta = self.deliveries[("%s:*" % tag, pid)] - before[("%s:*" % tag, pid)]
+            if delta != 1:
+                out.append(("dispatch:%s:%s:wildcard" % ("lost" if delta < 1 else "duplicate", tag),
+                            "%s wildcard subscriber got PacketAck %d %d times" % (tag, pid, delta)))
+        self._apply_acks(ids)
+        self.flags.add("reliable_packetack")
+        out.extend(self._check_futures())
+        return out
+
+    def ev_client_send(self, reliable, stale_id=False):
         msg = Message("ChatFromViewer", Block("AgentData", fill_missing=True), Block("ChatData", fill_missing=True))
+        if stale_id:
+            # e.g. a received message bounced back out: it still carries somebody else's sequence number
+            msg.packet_id = 1
+            self.flags.add("send_with_preset_id")
         fut = None
         if reliable:
             fut = self.circuit.send_reliable(msg)
@@ -367,6 +404,10 @@ class Harness:
             r = self.ev_ack(ev[1], ev[2])
         elif k == "csend":
             r = self.ev_client_send(ev[1])
+        elif k == "csend_stale":
+            r = self.ev_client_send(ev[1], stale_id=True)
+        elif k == "packr":
+            r = self.ev_packetack_reliable(ev[1])
         elif k == "tick":
             r = self.ev_tick(ev[1])
         elif k == "noise":
@@ -386,6 +427,9 @@ class Harness:
         return sorted(cls)
 
     def teardown(self):
+        for w in self.rejecting:
+            if not w.done():
+                w.cancel()
         for ws in self.waiters.values():
             for w in ws:
                 if not w.done():
@@ -465,7 +509,9 @@ EV = st.one_of(
     st.tuples(st.just("rtx"), st.integers(-3, 3), st.integers(1, 3), st.booleans()),
     st.tuples(st.just("csend"), st.booleans()), st.tuples(st.just("csend"), st.just(True)),
     st.tuples(st.just("skip"), st.booleans()), st.tuples(st.just("late")),
-    st.tuples(st.just("waiters"), st.sampled_from(["session", "region"]), st.integers(0, 1)),
+    st.tuples(st.just("waiters"), st.sampled_from(["session", "region"]), st.integers(0, 3)),
+    st.tuples(st.just("packr"), st.sampled_from(["all", "oldest", "unknown"])),
+    st.tuples(st.just("csend_stale"), st.booleans()),
     st.tuples(st.just("rtxack"), st.integers(0, 3), st.sampled_from(["oldest", "all"])),
     st.tuples(st.just("ack"), st.sampled_from(["appended", "body", "both"]), st.sampled_from(["all", "oldest", "newest", "dup", "unknown", "recent"])),
     st.tuples(st.just("tick"), st.sampled_from([3.1, 1.0, 3.0, 7.0])),
